@@ -161,7 +161,8 @@ def _main(args):
     audit_text = ''
     if theorems and bp['ok']:
         audit, audit_text = fw.lean_audit(pid, proof_targets, theorems)
-    forb = fw.forbidden_grep()
+    forb = fw.forbidden_grep(model_targets + proof_targets,
+                             [os.path.join(fw.LEAN_DIR, 'drivers', eng.DRIVER + '.lean')])
     broken = []          # proof obligations that no longer check
     discharged = 0
     for t in theorems:
